@@ -50,8 +50,6 @@ const preambleArray = `(set-option :produce-models true)
      :pattern ((select (chars (scat a b)) i))))
   (forall ((j Int)) (! (=> (and (<= 0 j) (< j (slen b))) (= (select (chars (scat a b)) (+ (slen a) j)) (select (chars b) j))) :pattern ((select (chars b) j)))))
   :pattern ((scat a b)))))
-(assert (forall ((a Str)) (! (= (scat a emptystr) a) :pattern ((scat a emptystr)))))
-(assert (forall ((a Str)) (! (= (scat emptystr a) a) :pattern ((scat emptystr a)))))
 (declare-fun ssub (Str Int Int) Str)
 (assert (forall ((s Str) (lo Int) (hi Int)) (! (and (= (slen (ssub s lo hi)) (- hi lo))
   (forall ((i Int)) (! (and (=> (and (<= 0 i) (< i (- hi lo))) (= (select (chars (ssub s lo hi)) i) (select (chars s) (+ lo i))))
@@ -129,6 +127,10 @@ func cleanupScratch() {
 // solve races the given solvers on one SMT-LIB text. First "unsat" wins; a "sat"
 // from any solver is final as well. Hard timeout per solver.
 func solve(text string, solvers []solverSpec, timeout time.Duration) SolverResult {
+	return solveCtx(context.Background(), text, solvers, timeout)
+}
+
+func solveCtx(parent context.Context, text string, solvers []solverSpec, timeout time.Duration) SolverResult {
 	queryMu.Lock()
 	querySeq++
 	n := querySeq
@@ -137,7 +139,7 @@ func solve(text string, solvers []solverSpec, timeout time.Duration) SolverResul
 	if err := os.WriteFile(file, []byte(text), 0o644); err != nil {
 		return SolverResult{Status: "error", Output: err.Error()}
 	}
-	ctx, cancel := context.WithTimeout(context.Background(), timeout)
+	ctx, cancel := context.WithTimeout(parent, timeout)
 	defer cancel()
 	type res struct {
 		SolverResult
@@ -229,9 +231,11 @@ func solve2(full, light string, solvers []solverSpec, timeout time.Duration) Sol
 		r    SolverResult
 		full bool
 	}
+	ctx, cancel := context.WithCancel(context.Background())
+	defer cancel()
 	ch := make(chan rr, 2)
-	go func() { ch <- rr{solve(full, solvers, timeout), true} }()
-	go func() { ch <- rr{solve(light, solvers, timeout), false} }()
+	go func() { ch <- rr{solveCtx(ctx, full, solvers, timeout), true} }()
+	go func() { ch <- rr{solveCtx(ctx, light, solvers, timeout), false} }()
 	var fullRes SolverResult
 	for i := 0; i < 2; i++ {
 		x := <-ch
